@@ -368,4 +368,23 @@ example : mpz_pow_ui 0 0 = 1 ∧ mpz_ui_pow_ui 0 0 = 1 ∧ mpz_pow_ui 0 5 = 0 :=
 example : mpz_pow_ui (-(3 * 2 ^ 70)) 3 = (-(3 * 2 ^ 70)) ^ 3 ∧ mpz_pow_ui (5 * 2 ^ 62) 7 = (5 * 2 ^ 62) ^ 7 ∧
     mpz_ui_pow_ui (2 ^ 64 - 1) 3 = (2 ^ 64 - 1) ^ 3 := by decide +kernel
 
+
+/-- **mpz_powm_ui** (mpz/powm_ui.c): for `el < 20` the old binary algorithm on the modulus shifted to
+    normal form (reduction of a long base, the single conditional subtraction for `el = 1`, square /
+    multiply with a reduction whenever the product has `mn` limbs, final reduction by the unshifted modulus,
+    negative-base fix-up); for `el ≥ 20` the deflection to mpz_powm.  For every base, every `el` and every
+    modulus: `b^el mod |m|` in `[0,|m|)`, the exception for `m = 0`, and a well-formed result. -/
+theorem powm_ui_spec (b : Int) (el : Nat) (m : Int) (hsz : (natLimbs m.natAbs).length * 64 < B) :
+    (mpz_powm_ui b el m).value? = powmSpec b (el : Int) m ∧ (mpz_powm_ui b el m).wf = true := by
+  by_cases h20 : el < 20
+  · exact mpz_powm_ui_small b el m h20
+  · have : mpz_powm_ui b el m = mpz_powm b (el : Int) m := by
+      unfold mpz_powm_ui; simp only [h20, if_false]
+    rw [this]; exact mpz_powm_spec b el m hsz
+
+-- non-vacuity: both sides of the `el = 20` switch, a modulus that needs shifting, a long negative base
+example : (mpz_powm_ui (-(2 ^ 200 + 12345)) 19 (2 ^ 70 + 3)).value? = powmSpec (-(2 ^ 200 + 12345)) 19 (2 ^ 70 + 3) ∧
+    (mpz_powm_ui 7 20 (3 * 2 ^ 65)).value? = some (7 ^ 20 % (3 * 2 ^ 65)) ∧
+    (mpz_powm_ui (2 ^ 64 - 1) 1 (2 ^ 63 + 1)).value? = some ((2 ^ 64 - 1) % (2 ^ 63 + 1)) := by decide +kernel
+
 end Mpir.Powm
